@@ -22,7 +22,7 @@ pub struct HeapCase {
     pub scripts: Vec<(Vec<u8>, u8)>,
 }
 
-const HEAP_DECLS: &str = "type Cell = {\n  id: int\n  label: string\n  items: array<int>\n  link: array<Cell>\n}\n\nfn mk(n: int) -> Cell {\n  let e: array<Cell> = []\n  Cell(n, \"c\" .. n, [n, n + 1], e)\n}\n\nfn weight(c: Cell, depth: int) -> int {\n  var w = c.id + c.items.len() * 10\n  if depth > 0 {\n    for k in c.link {\n      w = w + weight(k, depth - 1)\n    }\n  }\n  w\n}\n\nfn show(c: Cell) {\n  println(c.id .. \" \" .. c.label .. \" \" .. c.items .. \" \" .. c.link.len() .. \" \" .. weight(c, 3))\n}\n\n";
+const HEAP_DECLS: &str = "type Cell = {\n  id: int\n  label: string\n  items: array<int>\n  link: array<Cell>\n  bag: array<array<int>>\n}\n\nfn mk(n: int) -> Cell {\n  let e: array<Cell> = []\n  let b: array<array<int>> = []\n  Cell(n, \"c\" .. n, [n, n + 1], e, b)\n}\n\nfn weight(c: Cell, depth: int) -> int {\n  var w = c.id + c.items.len() * 10\n  for b in c.bag {\n    w = w + b.len() * 100\n  }\n  if depth > 0 {\n    for k in c.link {\n      w = w + weight(k, depth - 1)\n    }\n  }\n  w\n}\n\nfn show(c: Cell) {\n  println(c.id .. \" \" .. c.label .. \" \" .. c.items .. \" \" .. c.link.len() .. \" \" .. c.bag .. \" \" .. weight(c, 3))\n}\n\n// the moved objects of these helpers are held by no local once the call returns\nfn move_last(src: Cell, dst: Cell) {\n  if src.link.len() > 0 {\n    dst.link.push(src.link.pop())\n  }\n}\n\nfn stash(src: Cell, dst: Cell, n: int) {\n  dst.bag.push(src.items)\n  src.items = [n]\n}\n\nfn swap_in(src: Cell, dst: Cell, n: int) {\n  if dst.bag.len() > 0 {\n    dst.bag[0] = src.items\n    src.items = [n, n]\n  }\n}\n\nfn hand_over(src: Cell, dst: Cell, n: int) {\n  dst.items = src.items\n  src.items = [n]\n}\n\n";
 
 pub fn heap_program(c: &HeapCase) -> (String, Vec<String>) {
     let mut t = Tape { data: &c.tape, pos: 0 };
@@ -47,7 +47,7 @@ pub fn heap_program(c: &HeapCase) -> (String, Vec<String>) {
         }
         let n = t.n(50) as i64;
         tmp += 1;
-        match t.choose(&[5, 4, 3, 3, 3, 3, 3, 3, 2, 3, 2, 2]) {
+        match t.choose(&[5, 4, 3, 3, 3, 3, 3, 3, 2, 3, 2, 2, 3, 4, 3, 3]) {
             0 => {
                 labels.insert("edge");
                 s.push_str(&format!("c{i}.link.push(c{j})\n"));
@@ -96,9 +96,30 @@ pub fn heap_program(c: &HeapCase) -> (String, Vec<String>) {
                 labels.insert("clear-links");
                 s.push_str(&format!("let e{tmp}: array<Cell> = []\nc{i}.link = e{tmp}\n"));
             }
-            _ => {
+            11 => {
                 labels.insert("index-set");
                 s.push_str(&format!("if c{i}.link.len() > 0 {{\n  c{i}.link[0] = c{j}\n}}\n"));
+            }
+            12 => {
+                // pop -> push inside a helper: the moved cell is in no local afterwards
+                labels.insert("helper-move-via-pop");
+                s.push_str(&format!("move_last(c{j}, c{i})\n"));
+            }
+            13 => {
+                // an old array moves into another cell's array (push), its old reference is overwritten
+                labels.insert("helper-stash-push");
+                let (a, b) = if t.n(2) == 0 { (i, j) } else { (j, i) };
+                s.push_str(&format!("stash(c{a}, c{b}, {n})\n"));
+            }
+            14 => {
+                labels.insert("helper-index-store");
+                let (a, b) = if t.n(2) == 0 { (i, j) } else { (j, i) };
+                s.push_str(&format!("swap_in(c{a}, c{b}, {n})\n"));
+            }
+            _ => {
+                labels.insert("helper-field-store");
+                let (a, b) = if t.n(2) == 0 { (i, j) } else { (j, i) };
+                s.push_str(&format!("hand_over(c{a}, c{b}, {n})\n"));
             }
         }
     }
@@ -182,7 +203,7 @@ impl Prop for HeapMutator {
         "heap_mutator"
     }
     fn rule(&self) -> &'static str {
-        "one case = a heap-mutator program over 2..6 linked cells (edges, moves through pop, field moves, array/string replacement, fresh cells, closures over cells, garbage loops, strings in flight, channel round trips, index stores) ending in a traversal that prints everything reachable; it is run with collection disabled (reference), with the default pacing, with a collection cycle started at every k-th maybe_gc call (k = run length / 120 in the quick tier, 1 in the thorough tier for runs <= 3000 steps) x paces {one object, a few, everything} and generated multi-cycle scripts, always with freed objects quarantined and poisoned; no run may touch a reclaimed object and every run must equal the reference outcome; non-trivial = the schedules completed >= 1 cycle that reclaimed >= 1 object while the final traversal still printed every cell; distinct by program text"
+        "one case = a heap-mutator program over 2..6 linked cells (edges, moves through pop, field moves, array/string replacement, fresh cells, closures over cells, garbage loops, strings in flight, channel round trips, index stores, and helper functions that move an old object into another cell by push / index store / field store and overwrite its old reference, so that no local holds it afterwards) ending in a traversal that prints everything reachable; it is run with collection disabled (reference), with the default pacing, with a collection cycle started at every k-th maybe_gc call (k = run length / 120 in the quick tier, 1 in the thorough tier for runs <= 3000 steps) x paces {one object, a few, everything} and generated multi-cycle scripts, always with freed objects quarantined and poisoned; no run may touch a reclaimed object and every run must equal the reference outcome; non-trivial = the schedules completed >= 1 cycle that reclaimed >= 1 object while the final traversal still printed every cell; distinct by program text"
     }
     fn n_cases(&self, tier: Tier) -> u32 {
         tier.pick(1200, 12000)
